@@ -38,9 +38,9 @@ def run(ctx):
     if q:
         tabs += displib.gen_tables(ctx, 80, 3, dict(black=1, rw=2, agg=2, routes=4, dests=3), [3, 6, 9, 12], ctx.seed, "genA")
     else:
-        tabs += displib.gen_tables(ctx, 500, 4, dict(black=1, rw=2, agg=1, routes=4, dests=3), [3, 6, 9, 12, 15], ctx.seed, "genA")
-        tabs += displib.gen_tables(ctx, 300, 4, dict(black=2, rw=2, agg=2, routes=4, dests=3), [5, 10, 14], 1000 + ctx.seed, "genB")
-        tabs += displib.gen_tables(ctx, 200, 3, dict(black=0, rw=1, agg=0, routes=4, dests=3), [2, 4, 7, 10], 2000 + ctx.seed, "genC")
+        tabs += displib.gen_tables(ctx, 1000, 4, dict(black=1, rw=2, agg=1, routes=4, dests=3), [3, 6, 9, 12, 15], ctx.seed, "genA")
+        tabs += displib.gen_tables(ctx, 600, 4, dict(black=2, rw=2, agg=2, routes=4, dests=3), [5, 10, 14], 1000 + ctx.seed, "genB")
+        tabs += displib.gen_tables(ctx, 400, 3, dict(black=0, rw=1, agg=0, routes=4, dests=3), [2, 4, 7, 10], 2000 + ctx.seed, "genC")
     cases = []
     for i, tb in enumerate(tabs):
         cases.append(dict(id=i, names=tb["names"], t=tb["t"], exp=tb["exp"], lvl="", lvm="",
